@@ -169,6 +169,13 @@ def unify(pat, con, vars_, b):
             return ty_eq(b[pat[1]], con)
         b[pat[1]] = con
         return True
+    if pat[0] == 'path' and pat[2] and pat[1] in vars_ and con[0] == 'path' and len(pat[2]) == len(con[2]):
+        # macro_rules! header `impl .. for $name<T>`: the type *name* is a macro variable
+        head = ('path', con[1], ())
+        if pat[1] in b and not ty_eq(b[pat[1]], head):
+            return False
+        b[pat[1]] = head
+        return all(unify(p, c, vars_, b) for p, c in zip(pat[2], con[2]))
     if pat[0] != con[0]:
         return False
     if pat[0] == 'ref':
